@@ -121,7 +121,9 @@ def pair (reqs resps : List Msg) : List Item × Nat × Nat :=
   (r.1, (r.2.filter (·.isRequest)).length, (r.2.filter (!·.isRequest)).length)
 
 def canonHeaders (hs : List (Bytes × Bytes)) : Sx :=
-  let kept := hs.map fun h => (canonicalName h.1, h.2)
+  -- Content-Length is rebuilt by the HAR conversion from the length of the data kept: not compared (the harness drops
+  -- it from the observation as well), whatever a message put there
+  let kept := (hs.filter fun h => Wire.lower h.1 != bytesOfString "content-length").map fun h => (canonicalName h.1, h.2)
   let sorted := kept.mergeSort fun a b =>
     Sx.hexOfBytes a.1 < Sx.hexOfBytes b.1 || (Sx.hexOfBytes a.1 == Sx.hexOfBytes b.1 && Sx.hexOfBytes a.2 ≤ Sx.hexOfBytes b.2)
   .list (.atom "hdr" :: sorted.map fun (n, v) => .list [Sx.ofBytes n, Sx.ofBytes v])
